@@ -1180,3 +1180,267 @@ impl Scenario for FakeClock {
         "each run: the library's ManuallyAdvancedTimeSource is ambient; 3-22 operations (advance, wall-clock step, borrowed span around advances with a wall step in the middle, timers created / stopped repeatedly / closed, timestamps at creation and at close), a fifth of the runs with a second thread moving the shared fake first; exact model. non-trivial = >= 2 operations; distinct = distinct plans"
     }
 }
+
+// ------------------------------------------------------------------------------------------
+// The library's tokio time source (`TimeSource::tokio` / `TokioTime`): both of its clocks follow tokio's clock, which
+// the scenario pauses and moves by `advance` and by sleeping (auto-advance). Installed thread-locally, for the
+// current runtime, or handed to every object explicitly. Exact model: wall = start + what tokio's clock moved since
+// the source was built.
+// ------------------------------------------------------------------------------------------
+
+pub struct TokioClock;
+
+fn tokio_clock_main(plan: &Value, out: Arc<Mutex<Vec<String>>>) {
+    use metrique_timesource::tokio::set_time_source_for_current_runtime;
+    let rt = tokio::runtime::Builder::new_current_thread().enable_time().start_paused(true).build().expect("runtime");
+    let bad = |msg: String| out.lock().unwrap().push(msg);
+    let wall0: u64 = ju(plan, "wall0", 1_700_000_000_000_000_000);
+    let install = js(plan, "install", "thread").to_string();
+    let ops = ja(plan, "ops").to_vec();
+    rt.block_on(async {
+        // the clock moves before the source exists: the source's wall clock must start at wall0 *now*
+        let pre = ju(plan, "pre_ns", 0);
+        if pre > 0 {
+            tokio::time::advance(Duration::from_nanos(pre)).await;
+        }
+        let src = TimeSource::tokio(SystemTime::UNIX_EPOCH + Duration::from_nanos(wall0));
+        let mut mono: u64 = 0; // ns the tokio clock moved since the source was built
+        let _g1;
+        let _g2;
+        match install.as_str() {
+            "thread" => _g1 = set_time_source(src.clone()),
+            "runtime" => _g2 = set_time_source_for_current_runtime(src.clone()),
+            _ => {}
+        }
+        let explicit = install == "explicit";
+        let mut sw = if explicit { Stopwatch::new_from_timesource(src.clone()) } else { Stopwatch::new() };
+        let mut sw_total: Option<u64> = None;
+        let mut timers: BTreeMap<u64, (Timer, u64, Option<u64>)> = BTreeMap::new();
+        let mut owned: BTreeMap<u64, (OwnedTimerGuard, u64)> = BTreeMap::new();
+        for op in &ops {
+            detsim::yield_point();
+            match js(op, "op", "") {
+                "adv" => {
+                    let ns = ju(op, "ns", 0);
+                    tokio::time::advance(Duration::from_nanos(ns)).await;
+                    mono += ns;
+                }
+                "sleep" => {
+                    // tokio's timer wheel has millisecond granularity: sleep whole milliseconds and read back what moved
+                    let ms = ju(op, "ms", 1);
+                    let before = tokio::time::Instant::now();
+                    tokio::time::sleep(Duration::from_millis(ms)).await;
+                    mono += before.elapsed().as_nanos() as u64;
+                }
+                "span" => {
+                    let g = sw.start();
+                    let ns = ju(op, "ns", 0);
+                    tokio::time::advance(Duration::from_nanos(ns)).await;
+                    mono += ns;
+                    match js(op, "end", "drop") {
+                        "discard" => g.discard(),
+                        "stop" => {
+                            g.stop();
+                            sw_total = Some(sw_total.unwrap_or(0) + ns);
+                        }
+                        _ => {
+                            drop(g);
+                            sw_total = Some(sw_total.unwrap_or(0) + ns);
+                        }
+                    }
+                }
+                "owned_start" => {
+                    owned.insert(ju(op, "obj", 0), (sw.start_owned(), mono));
+                }
+                "owned_end" => {
+                    if let Some((g, start)) = owned.remove(&ju(op, "obj", 0)) {
+                        if jb(op, "discard", false) {
+                            g.discard();
+                        } else {
+                            drop(g);
+                            sw_total = Some(sw_total.unwrap_or(0) + (mono - start));
+                        }
+                    }
+                }
+                "clear" => {
+                    // guards still running keep adding to the cleared stopwatch when they end: end them first
+                    for (_, (g, _)) in std::mem::take(&mut owned) {
+                        g.discard();
+                    }
+                    sw.clear();
+                    sw_total = None;
+                }
+                "check" => {
+                    let rep = (&sw).close().map(|d| d.as_nanos() as u64);
+                    if rep != sw_total {
+                        bad(format!("stopwatch_total_wrong: the stopwatch reports {rep:?} ns, its completed spans total {sw_total:?} ns on tokio's (paused, manually moved) clock"));
+                    }
+                }
+                "timer_new" => {
+                    let t = if explicit { Timer::start_now_with_timesource(src.clone()) } else { Timer::start_now() };
+                    timers.insert(ju(op, "obj", 0), (t, mono, None));
+                }
+                "timer_stop" => {
+                    if let Some((t, start, stopped)) = timers.get_mut(&ju(op, "obj", 0)) {
+                        let r = t.stop().as_nanos() as u64;
+                        let want = *stopped.get_or_insert(mono - *start);
+                        if r != want {
+                            bad(format!("timer_stop_wrong: stop() returned {r} ns, tokio's clock moved {want} ns between creation and the first stop"));
+                        }
+                    }
+                }
+                "timer_close" => {
+                    if let Some((t, start, stopped)) = timers.remove(&ju(op, "obj", 0)) {
+                        let r = t.close().as_nanos() as u64;
+                        let want = stopped.unwrap_or(mono - start);
+                        if r != want {
+                            bad(format!("timer_close_wrong: the timer closed with {r} ns, tokio's clock moved {want} ns between its creation and its first stop / close"));
+                        }
+                    }
+                }
+                "stamp" => {
+                    let on_close = jb(op, "on_close", false);
+                    let ns = ju(op, "ns", 0);
+                    let (v, want) = if on_close {
+                        // (a close-timestamp has no explicit-source constructor: it keeps the source that is ambient when it is
+                        // built, so with an explicit source it is built under a scoped override and closed outside it)
+                        let t = if explicit { metrique_timesource::with_time_source(src.clone(), TimestampOnClose::default) } else { TimestampOnClose::default() };
+                        tokio::time::advance(Duration::from_nanos(ns)).await;
+                        mono += ns;
+                        (t.close(), wall0 + mono)
+                    } else {
+                        let want = wall0 + mono;
+                        let t = if explicit { if jb(op, "via_new", false) { Timestamp::new(src.system_time()) } else { Timestamp::new_from_time_source(src.clone()) } } else if jb(op, "via_new", false) { Timestamp::default() } else { Timestamp::now() };
+                        tokio::time::advance(Duration::from_nanos(ns)).await;
+                        mono += ns;
+                        (t.close(), want)
+                    };
+                    let got = v.duration_since_epoch().as_nanos() as u64;
+                    if got != want {
+                        bad(format!("timestamp_wrong: a timestamp (on_close: {on_close}) reports {got} ns since the epoch, the tokio time source's wall clock said {want} ns"));
+                    }
+                }
+                _ => {}
+            }
+        }
+        for (_, (g, start)) in std::mem::take(&mut owned) {
+            drop(g);
+            sw_total = Some(sw_total.unwrap_or(0) + (mono - start));
+        }
+        let rep = sw.close().map(|d| d.as_nanos() as u64);
+        if rep != sw_total {
+            bad(format!("stopwatch_total_wrong: the stopwatch reports {rep:?} ns, its completed spans total {sw_total:?} ns on tokio's (paused, manually moved) clock"));
+        }
+    });
+}
+
+impl Scenario for TokioClock {
+    fn name(&self) -> &'static str {
+        "timers_tokio_clock"
+    }
+    fn property(&self) -> &'static str {
+        "C18"
+    }
+    fn weight(&self, _tier: Tier) -> u32 {
+        1
+    }
+    fn generate(&self, rng: &mut Rng, _tier: Tier) -> Value {
+        let mut ops = vec![];
+        let mut live: Vec<u64> = vec![];
+        let mut owned: Vec<u64> = vec![];
+        let mut next = 1u64;
+        for _ in 0..(3 + rng.below(20)) {
+            match rng.below(12) {
+                0 | 1 => ops.push(json!({"op":"adv","ns":adv18(rng)})),
+                2 => ops.push(json!({"op":"sleep","ms":1 + rng.below(5000)})),
+                3 | 4 => ops.push(json!({"op":"span","ns":adv18(rng),"end": *rng.pick(&["drop","stop","discard"])})),
+                5 => {
+                    ops.push(json!({"op":"timer_new","obj":next}));
+                    live.push(next);
+                    next += 1;
+                }
+                6 if !live.is_empty() => ops.push(json!({"op":"timer_stop","obj": *rng.pick(&live)})),
+                7 if !live.is_empty() => {
+                    let i = rng.usize_below(live.len());
+                    ops.push(json!({"op":"timer_close","obj": live.remove(i)}));
+                }
+                8 => {
+                    ops.push(json!({"op":"owned_start","obj":next}));
+                    owned.push(next);
+                    next += 1;
+                }
+                9 if !owned.is_empty() => {
+                    let i = rng.usize_below(owned.len());
+                    ops.push(json!({"op":"owned_end","obj": owned.remove(i), "discard": rng.chance(0.25)}));
+                }
+                10 => {
+                    if rng.chance(0.3) {
+                        owned.clear();
+                        ops.push(json!({"op":"clear"}));
+                    } else {
+                        ops.push(json!({"op":"check"}));
+                    }
+                }
+                _ => ops.push(json!({"op":"stamp","on_close":rng.chance(0.5),"ns":adv18(rng),"via_new":rng.chance(0.3)})),
+            }
+        }
+        for obj in live {
+            ops.push(json!({"op":"timer_close","obj":obj}));
+        }
+        let sched = gen_sched(rng, &SchedOpts { est_choices: 60, threads: 1, jump_max_ns: 0, stall_clock_max_ns: 0, max_steps: 20_000 });
+        let install = *rng.pick(&["thread", "runtime", "explicit"]);
+        let wall0 = 1_000_000_000_000_000_000u64 + rng.below(900_000_000_000_000_000);
+        let pre = if rng.chance(0.5) { adv18(rng) } else { 0 };
+        json!({"sched": sched, "ops": ops, "install": install, "wall0": wall0, "pre_ns": pre})
+    }
+    fn run(&self, plan: &Value) -> Report {
+        let sched = sched_from_plan(plan);
+        let bad: Arc<Mutex<Vec<String>>> = Arc::new(Mutex::new(vec![]));
+        let (b2, p2) = (bad.clone(), plan.clone());
+        let (out, _) = detsim::run(sched, move || tokio_clock_main(&p2, b2));
+        let mut r = Report::default();
+        r.nontrivial = ja(plan, "ops").len() >= 2;
+        r.case_sig = mix(out.sig, hash_value(&json!([plan.get("ops"), plan.get("install"), plan.get("pre_ns")])));
+        let failure = out.failure.clone();
+        let mp = out.main_panic.clone();
+        absorb_outcome(&mut r, out);
+        let ops = ja(plan, "ops");
+        r.probe("tokio_source_installed_for_the_runtime", (js(plan, "install", "") == "runtime") as u64);
+        r.probe("tokio_clock_moved_before_the_source_was_built", (ju(plan, "pre_ns", 0) > 0) as u64);
+        r.probe("tokio_clock_moved_by_sleeping", ops.iter().filter(|o| js(o, "op", "") == "sleep").count() as u64);
+        r.states = vec![mix(ops.len() as u64, hash_value(&json!(plan.get("install"))))];
+        if let Some(msg) = bad.lock().unwrap().first() {
+            let (class, text) = msg.split_once(": ").unwrap_or(("timer_wrong", msg));
+            r.violation = Some(Violation::new(class, text.to_string()));
+        }
+        r.sample = Some(json!({"install": plan.get("install"), "ops": ops.iter().take(12).collect::<Vec<_>>()}));
+        if r.violation.is_none() {
+            match failure {
+                None => {}
+                Some(detsim::Failure::StepLimit { .. }) => r.inconclusive = true,
+                Some(f) => r.harness_error = Some(format!("simulation failed: {f:?}")),
+            }
+            if let Some(p) = mp {
+                match crate::driver::classify_uncaught_panic(&p) {
+                    Ok(v) => r.violation = Some(v),
+                    Err(e) => r.harness_error = Some(e),
+                }
+            }
+        }
+        r
+    }
+    fn probes(&self) -> Vec<&'static str> {
+        vec!["tokio_source_installed_for_the_runtime", "tokio_clock_moved_before_the_source_was_built", "tokio_clock_moved_by_sleeping"]
+    }
+    fn components(&self) -> Value {
+        json!({
+            "real": ["metrique_timesource::tokio::TokioTime / TimeSource::tokio", "set_time_source_for_current_runtime", "Stopwatch (borrowed and owned guards)", "Timer", "Timestamp / TimestampOnClose", "tokio's paused clock (advance, auto-advance while sleeping)"],
+            "simulated_seams": ["none beyond tokio's own paused clock: one simulated thread"],
+            "harness": ["exact model: wall = start + what tokio's clock moved since the source was built"],
+            "stub": []
+        })
+    }
+    fn rule(&self) -> &'static str {
+        "each run: a current-thread tokio runtime with a paused clock; the library's tokio time source installed thread-locally, for the runtime, or handed to each object; 3-22 operations (advance, sleep, borrowed spans ended by drop / stop / discard, owned guards, clear, check, timers, timestamps); exact model. non-trivial = >= 2 operations; distinct = distinct plans"
+    }
+}
